@@ -216,6 +216,16 @@ func (u *Uni) call(objType string, fd *ast.FieldDefinition, ft reflect.Type, arg
 		panic(u.Plan.PanicMsg(path))
 	case refexec.KNull:
 		return retErr(ft, nil)
+	case refexec.KAddErrNull:
+		graphql.AddError(ctx, errors.New(u.Plan.ErrMsg(path)))
+		// a second seam between recording the error and returning nil: sibling failures can be
+		// scheduled into this window
+		if u.Park {
+			if _, killed := u.W.Park("res-post", key, ctx).(core.Kill); killed {
+				return retErr(ft, ErrKilled)
+			}
+		}
+		return retErr(ft, nil)
 	}
 	v := u.Build(out0, fd.Type, path)
 	return []reflect.Value{v, reflect.Zero(errType)}
